@@ -130,9 +130,19 @@ class EAM_Potential_Builder(object):
     for t in tuple_list:
       species = t.species
       #Create potential function
-      pot_func = potential_form_builder.create_potential_function(t.potential_form_instance)
+      pot_func = self._create_potential_function(potential_form_builder, t.potential_form_instance, species)
       d[species] = pot_func
     return d
+
+  def _create_potential_function(self, potential_form_builder, potential_form_instance, species):
+    try:
+      return potential_form_builder.create_potential_function(potential_form_instance)
+    except (ArithmeticError, ValueError) as e:
+      # Building a function evaluates its pieces (a spline needs value and derivatives of its end potentials at the
+      # detach and attach points): a definition whose pieces cannot be evaluated there is ill-formed (as in [Pair]).
+      msg = "Problem defining EAM function for {species}. The definition could not be evaluated whilst it was built: {exc_type}: {msg}".format(
+        species = species, exc_type = type(e).__name__, msg = e)
+      raise ConfigurationException(msg)
 
   def _get_mass(self, species):
     try:
@@ -204,7 +214,7 @@ class EAM_Potential_Builder_FS(EAM_Potential_Builder):
       f_species = d.species.from_species
       t_species = d.species.to_species
       
-      pot_func = potential_form_builder.create_potential_function(d.potential_form_instance)
+      pot_func = self._create_potential_function(potential_form_builder, d.potential_form_instance, "{}->{}".format(f_species, t_species))
 
       add_to = outdict.setdefault(f_species, {})
       
